@@ -2343,4 +2343,275 @@ theorem layout_aligned_res (o : Obj) (h : Bytes) (res : LayoutRes) (hl : layoutO
     rw [hk] at this; simp only [Option.some.injEq] at this; subst this
     exact hstep2.aligned k s0 s' hng hg h0k' hs2 ha hnn hi
 
+/-! ### only members get generated; flat segments: the file size follows the cursor -/
+
+theorem wsdStep_gen_only (c : Cls) (g : Seg) (segStart : BitVec 64) (st st' : WsdSt) (idx : BitVec 16)
+    (h : wsdStep c g segStart st idx = .ok (some st')) (k : Nat) (hk : st'.lay.Gen k) :
+    st.lay.Gen k ∨ k = idx.toNat := by
+  obtain ⟨sec, generated, hsec, hgen, hcases⟩ := wsdStep_cases c g segStart st st' idx h
+  have hilen : idx.toNat < st.lay.gen.length := by
+    rcases Nat.lt_or_ge idx.toNat st.lay.gen.length with h' | h'
+    · exact h'
+    · rw [List.getElem?_eq_none h'] at hgen; exact nomatch hgen
+  rcases hcases with ⟨-, rfl⟩ | ⟨-, gap, -, hrest⟩
+  · exact (getElem?_set_true_iff _ _ _ hilen).1 hk
+  · rcases hrest with ⟨-, rfl⟩ | ⟨-, rfl⟩
+    · exact Or.inl hk
+    · exact (getElem?_set_true_iff _ _ _ hilen).1 hk
+
+theorem wsdLoop_gen_only (c : Cls) (g : Seg) (segStart : BitVec 64) (l : List (BitVec 16)) (st st' : WsdSt)
+    (h : wsdLoop c g segStart l st = .ok (some st')) (k : Nat) (hk : st'.lay.Gen k) :
+    st.lay.Gen k ∨ ∃ idx ∈ l, idx.toNat = k := by
+  induction l generalizing st with
+  | nil =>
+    simp only [wsdLoop, pure, Except.pure, Except.ok.injEq, Option.some.injEq] at h
+    subst h; exact Or.inl hk
+  | cons i rest ih =>
+    unfold wsdLoop at h
+    cases hs : wsdStep c g segStart st i with
+    | error e => rw [hs] at h; simp [bind, Except.bind] at h
+    | ok r =>
+      rw [hs] at h
+      cases r with
+      | none => simp [bind, Except.bind, pure, Except.pure] at h
+      | some st1 =>
+        simp only [bind, Except.bind] at h
+        rcases ih st1 h with h1 | ⟨idx, hm, rfl⟩
+        · rcases wsdStep_gen_only c g segStart st st1 i hs k h1 with h2 | h2
+          · exact Or.inl h2
+          · exact Or.inr ⟨i, List.mem_cons_self, h2.symm⟩
+        · exact Or.inr ⟨idx, List.mem_cons_of_mem _ hm, rfl⟩
+
+theorem layoutSegment_gen_only (c : Cls) (hdrPhoff : BitVec 64) (phentsize phnum : BitVec 16) (lay lay' : Layout)
+    (g g' : Seg) (h : layoutSegment c hdrPhoff phentsize phnum lay g = .ok (some (lay', g')))
+    (k : Nat) (hk : lay'.Gen k) : lay.Gen k ∨ ∃ idx ∈ g.secs, idx.toNat = k := by
+  obtain ⟨fg, r, st, hfg, hin, hloop, rfl, rfl⟩ := layoutSegment_parts c hdrPhoff phentsize phnum lay lay' g g' h
+  have hl := segInit_lay c hdrPhoff phentsize phnum lay g fg r hin
+  rcases wsdLoop_gen_only c g r.2.1 g.secs _ st hloop k hk with h1 | h1
+  · left; simp only at h1; rw [hl] at h1; exact h1
+  · exact Or.inr h1
+
+/-- the member is not generated yet when its step comes -/
+def wsdStepFresh (st : WsdSt) (idx : BitVec 16) : Bool := st.lay.gen[idx.toNat]? == some false
+
+/-- when every member is fresh at its step, the file size never runs ahead of the cursor -/
+theorem wsdLoop_file_le (c : Cls) (g : Seg) (segStart : BitVec 64) (l : List (BitVec 16)) (st st' : WsdSt)
+    (lo : Nat) (hinv : LayInv lo st.lay)
+    (hnw : wsdLoopNW c g segStart l st = true)
+    (hdom : wsdLoopAll (wsdStepDom c g segStart) c g segStart l st = true)
+    (hfr : wsdLoopAll (fun st idx => wsdStepFresh st idx) c g segStart l st = true)
+    (hfm : st.file.toNat ≤ st.mem.toNat)
+    (h0 : segStart.toNat ≤ st.lay.pos.toNat ∧ st.file.toNat ≤ st.lay.pos.toNat - segStart.toNat)
+    (h : wsdLoop c g segStart l st = .ok (some st')) :
+    segStart.toNat ≤ st'.lay.pos.toNat ∧ st'.file.toNat ≤ st'.lay.pos.toNat - segStart.toNat := by
+  induction l generalizing st with
+  | nil =>
+    simp only [wsdLoop, pure, Except.pure, Except.ok.injEq, Option.some.injEq] at h
+    subst h; exact h0
+  | cons idx rest ih =>
+    unfold wsdLoop at h
+    unfold wsdLoopNW at hnw
+    unfold wsdLoopAll at hdom hfr
+    cases hs : wsdStep c g segStart st idx with
+    | error e => rw [hs] at h; simp [bind, Except.bind] at h
+    | ok r =>
+      rw [hs] at h hnw hdom hfr
+      cases r with
+      | none => simp [bind, Except.bind, pure, Except.pure] at h
+      | some st1 =>
+        simp only [bind, Except.bind, Bool.and_eq_true] at h hnw hdom hfr
+        obtain ⟨i1, -⟩ := wsdStep_inv c g segStart st st1 idx lo hinv hnw.1 hs
+        have hw : WsdInv false false segStart st := ⟨hfm, (fun h => nomatch h), (fun h => nomatch h)⟩
+        obtain ⟨w1, -⟩ := wsdStep_dom false false c g segStart st st1 idx lo hinv hw hnw.1 hdom.1
+          (fun h => nomatch h) (fun h => nomatch h) hs
+        refine ih st1 i1 hnw.2 hdom.2 hfr.2 w1.fileLe ?_ h
+        -- one step
+        obtain ⟨sec, generated, hsec, hgen, hcases⟩ := wsdStep_cases c g segStart st st1 idx hs
+        have hfresh : generated = false := by
+          have := hfr.1
+          simp only [wsdStepFresh, hgen, beq_iff_eq, Option.some.injEq] at this
+          exact this
+        subst hfresh
+        rcases hcases with ⟨-, rfl⟩ | ⟨hnull, gap, hgap, hrest⟩
+        · exact h0
+        · rcases hrest with ⟨hg, -⟩ | ⟨-, rfl⟩
+          · exact nomatch hg
+          · have hd := hdom.1
+            unfold wsdStepDom at hd
+            rw [hsec, hgen] at hd
+            simp only [hnull, Bool.false_eq_true, if_false, hgap, Bool.and_eq_true, decide_eq_true_eq] at hd
+            obtain ⟨⟨-, hmnw⟩, -⟩ := hd
+            have hn := hnw.1
+            unfold wsdStepNW at hn
+            rw [hsec, hgen] at hn
+            simp only [hnull, Bool.false_eq_true, if_false, hgap, Bool.and_eq_true, decide_eq_true_eq] at hn
+            obtain ⟨⟨h01, h12⟩, -⟩ := hn
+            simp only [wsd_cursor_gap] at h01 h12
+            have hp1 := bv_add_toNat_of_le _ _ h01
+            simp only
+            by_cases hcf : wsd_counts_file sec.stype = true
+            · simp only [hcf, if_true]
+              rw [wsd_file_add_toNat _ _ _ _ hfm hmnw]
+              -- the cursor advanced by gap + size
+              have hp2 : (wsdPlace c g segStart st.lay.pos gap sec).2.toNat =
+                  st.lay.pos.toNat + gap.toNat + sec.size.toNat := by
+                have hmv := wsdPlace_moved c g segStart st.lay.pos gap sec
+                have : (wsdPlace c g segStart st.lay.pos gap sec).2 =
+                    (if wsd_counts_file (wsdPlace c g segStart st.lay.pos gap sec).1.stype then
+                      wsd_advance (wsd_cursor_gap st.lay.pos gap) (wsdPlace c g segStart st.lay.pos gap sec).1.size
+                     else wsd_cursor_gap st.lay.pos gap) := rfl
+                rw [this, hmv.stype, hmv.size] at h12 ⊢
+                simp only [hcf, if_true, wsd_advance, wsd_cursor_gap] at h12 ⊢
+                rw [bv_add_toNat_of_le _ _ h12, hp1]
+              rw [hp2]; omega
+            · have hcf' : wsd_counts_file sec.stype = false := by simpa using hcf
+              simp only [hcf', Bool.false_eq_true, if_false]
+              have : st.lay.pos.toNat ≤ (wsdPlace c g segStart st.lay.pos gap sec).2.toNat := by omega
+              omega
+
+/-! ### which turn a final segment comes from -/
+
+theorem nodup_map_inj {α β : Type} (f : α → β) (l : List α) (h : (l.map f).Nodup) (a b : α)
+    (ha : a ∈ l) (hb : b ∈ l) (he : f a = f b) : a = b := by
+  induction l with
+  | nil => exact nomatch ha
+  | cons x xs ih =>
+    simp only [List.map_cons, List.nodup_cons, List.mem_map, not_exists, not_and] at h
+    rcases List.mem_cons.1 ha with rfl | ha' <;> rcases List.mem_cons.1 hb with rfl | hb'
+    · rfl
+    · exact absurd he.symm (h.1 b hb')
+    · exact absurd he (h.1 a ha')
+    · exact ih h.2 ha' hb'
+
+theorem find?_unique {α : Type} (p : α → Bool) (l : List α) (a : α) (ha : a ∈ l) (hp : p a = true)
+    (hu : ∀ x ∈ l, p x = true → x = a) : l.find? p = some a := by
+  induction l with
+  | nil => exact nomatch ha
+  | cons x xs ih =>
+    by_cases hx : p x = true
+    · have := hu x List.mem_cons_self hx
+      subst this; simp [List.find?, hx]
+    · have hx' : p x = false := by simpa using hx
+      simp only [List.find?, hx']
+      rcases List.mem_cons.1 ha with rfl | ha'
+      · rw [hp] at hx'; exact nomatch hx'
+      · exact ih ha' (fun y hy => hu y (List.mem_cons_of_mem _ hy))
+
+theorem calcSegAlign_aux (secs : List SecBuf) (l : List (BitVec 16)) (g g' : Seg)
+    (h : l.foldlM (fun g idx =>
+      match secs[idx.toNat]? with
+      | none => (throw (Fault.vecOob "calc_segment_alignment/sections_[index]") : M Seg)
+      | some s => pure (if BitVec.ult g.align s.addrAlign then { g with align := s.addrAlign } else g)) g = .ok g') :
+    g' = { g with align := g'.align } := by
+  induction l generalizing g with
+  | nil => simp only [List.foldlM, pure, Except.pure, Except.ok.injEq] at h; subst h; rfl
+  | cons idx rest ih =>
+    simp only [List.foldlM, bind, Except.bind] at h
+    cases hs : secs[idx.toNat]? with
+    | none => rw [hs] at h; simp [throw, throwThe, MonadExceptOf.throw] at h
+    | some s =>
+      rw [hs] at h
+      simp only [pure, Except.pure] at h
+      have := ih _ h
+      rw [this]
+      split <;> rfl
+
+theorem calcSegAlign_fields (secs : List SecBuf) (g g' : Seg) (h : calcSegAlign secs g = .ok g') :
+    g' = { g with align := g'.align } := calcSegAlign_aux secs g.secs g g' h
+
+theorem mapM_calcSegAlign (secs : List SecBuf) (l l' : List Seg) (h : l.mapM (calcSegAlign secs) = .ok l') :
+    l'.map (·.index) = l.map (·.index) ∧ l'.map (·.secs) = l.map (·.secs) := by
+  induction l generalizing l' with
+  | nil => simp only [List.mapM_nil, pure, Except.pure, Except.ok.injEq] at h; subst h; exact ⟨rfl, rfl⟩
+  | cons g rest ih =>
+    rw [List.mapM_cons] at h
+    simp only [bind, Except.bind] at h
+    cases hg : calcSegAlign secs g with
+    | error e => rw [hg] at h; simp at h
+    | ok g' =>
+      rw [hg] at h
+      simp only at h
+      cases hr : rest.mapM (calcSegAlign secs) with
+      | error e => rw [hr] at h; simp at h
+      | ok r' =>
+        rw [hr] at h
+        simp only [pure, Except.pure, Except.ok.injEq] at h
+        subst h
+        obtain ⟨i1, i2⟩ := ih r' hr
+        have := calcSegAlign_fields secs g g' hg
+        simp only [List.map_cons, i1, i2]
+        rw [this]
+        exact ⟨rfl, rfl⟩
+
+theorem final_segs_turn (o : Obj) (h : Bytes) (res : LayoutRes) (hl : layoutOf o h = .ok (some res))
+    (hnw : layoutNW o h = true) (hn : o.secs.length < 65536)
+    (h0 : ∀ (i : Nat) (s : SecBuf), o.secs[i]? = some s → s.Occ → s.index ≠ 0)
+    (hnd : (o.segs.map (·.index)).Nodup) (g' : Seg) (hg : g' ∈ res.segs) :
+    ∃ t ∈ res.trace o, g' = t.g' := by
+  obtain ⟨e1, e2, e3⟩ := layoutOf_trace o h res hl hnw hn h0
+  obtain ⟨-, -, hmap, hord, -, hsegs, -, -⟩ := layoutOf_parts o h res hl
+  have hp := orderedSegments_perm _ _ hord
+  have hnd0 : (res.segs0.map (·.index)).Nodup := by rw [(mapM_calcSegAlign _ _ _ hmap).1]; exact hnd
+  have hndo : (res.ordered.map (·.index)).Nodup := ((hp.map (·.index)).nodup_iff).2 hnd0
+  have hndt : ((res.trace o).map (fun t => t.g.index)).Nodup := by
+    have : (res.trace o).map (fun t => t.g.index) = ((res.trace o).map (·.g)).map (·.index) := by
+      rw [List.map_map]; rfl
+    rw [this, e1]; exact hndo
+  rw [hsegs, List.mem_map] at hg
+  obtain ⟨g0, hg0, rfl⟩ := hg
+  have : g0 ∈ res.ordered := (hp.mem_iff).2 hg0
+  rw [← e1, List.mem_map] at this
+  obtain ⟨t, ht, rfl⟩ := this
+  refine ⟨t, ht, ?_⟩
+  have hidx : ∀ t' ∈ res.trace o, t'.g'.index = t'.g.index := by
+    intro t' ht'
+    obtain ⟨f1, f2, f3, -, -, -⟩ := e3 t' ht'
+    exact (layoutSegment_marks _ _ _ _ _ _ _ _ _ f3 f2 f1).2.2.1
+  have hfind : res.done.find? (fun d => d.index == t.g.index) = some t.g' := by
+    apply find?_unique
+    · rw [e2]; exact List.mem_map_of_mem ht
+    · simp only [beq_iff_eq]; exact hidx t ht
+    · intro x hx hpx
+      rw [e2, List.mem_map] at hx
+      obtain ⟨t', ht', rfl⟩ := hx
+      simp only [beq_iff_eq] at hpx
+      rw [hidx t' ht'] at hpx
+      have := nodup_map_inj (fun t => t.g.index) _ hndt t' t ht' ht hpx
+      rw [this]
+  rw [hfind]; rfl
+
+/-! ### description of the final sections -/
+
+theorem layout_final_desc (o : Obj) (h : Bytes) (res : LayoutRes) (hl : layoutOf o h = .ok (some res))
+    (hnw : layoutNW o h = true) (k : Nat) (s' : SecBuf) (hk : res.secs[k]? = some s') :
+    ∃ s, res.lay2.secs[k]? = some s ∧ SecBuf.Moved s s' ∧
+      (withoutSegment res.segs k = false → s' = s) ∧
+      (withoutSegment res.segs k = true → s.index ≠ 0 → res.lay2.pos.toNat ≤ s'.offset.toNat) := by
+  unfold layoutNW at hnw
+  rw [hl] at hnw
+  simp only [Bool.and_eq_true, decide_eq_true_eq] at hnw
+  obtain ⟨⟨-, hnw3⟩, -⟩ := hnw
+  obtain ⟨-, -, -, -, -, -, hloose, -⟩ := layoutOf_parts o h res hl
+  rw [layoutLoose_eq_spec] at hloose
+  simp only [List.reverse_nil, List.nil_append, Prod.mk.injEq] at hloose
+  obtain ⟨hsecs, -⟩ := hloose
+  obtain ⟨flen, -, fun_, fpl, -⟩ := looseSpec_facts o.cls res.segs res.lay2.secs 0 res.lay2.pos hnw3
+  simp only [Nat.zero_add] at fun_ fpl
+  simp only [← hsecs] at flen fun_ fpl
+  have hlt : k < res.lay2.secs.length := by
+    rw [← flen]
+    rcases Nat.lt_or_ge k res.secs.length with h' | h'
+    · exact h'
+    · rw [List.getElem?_eq_none h'] at hk; exact nomatch hk
+  have hs : res.lay2.secs[k]? = some res.lay2.secs[k] := List.getElem?_eq_getElem hlt
+  cases hw : withoutSegment res.segs k with
+  | false =>
+    have := fun_ k _ hs hw
+    rw [hk] at this; simp only [Option.some.injEq] at this
+    exact ⟨_, hs, by rw [this]; exact SecBuf.Moved.refl _, fun _ => this, fun h => Bool.noConfusion h⟩
+  | true =>
+    obtain ⟨t, ht, hm, -, -, hr⟩ := fpl k _ hs hw
+    rw [hk] at ht; simp only [Option.some.injEq] at ht; subst ht
+    exact ⟨_, hs, hm, fun h => Bool.noConfusion h, fun _ hi => (hr hi).1⟩
+
 end ElfioVerif
